@@ -1562,7 +1562,7 @@ def owner_clause(ctx, rule, attr, owners, what, minimum=1, ignore=None):
                                      for m, c in owners)),
                construct='%s %s' % (api, attr))
     ctx.require(inside >= minimum, 'writers of %s inside the owners (found '
-                                   '%d)' % (attr, inside))
+                                   '%d)' % (attr, inside), rule=rule)
 
 
 _ZK_WRITES = ('create', 'put', 'set', 'delete', 'ensure_deleted',
